@@ -267,7 +267,7 @@ def run_property(prop, tier='quick', seed=0, jobs=12):
                     crashes.append((o['func'], 'canary proved: contradictory premises'))
                 continue
             if r['kind'] == 'kf-repro':
-                if r['status'] == 'sat':
+                if r['status'] == 'sat' and prop in r['kf'].get('properties', [prop]):
                     kf = r['kf']
                     line = 'KNOWN-FINDING: property=%s %s' % (prop, kf['text'])
                     if line not in kf_lines:
